@@ -98,7 +98,7 @@ func (g *Gen) Scenario() {
 	n1, n2 := 1+g.R.Intn(3), 1+g.R.Intn(3)
 	nsc := 8
 	if withObs {
-		nsc = 10
+		nsc = 12
 	}
 	pick := g.R.Intn(nsc + 2)
 	if pick >= nsc {
@@ -158,6 +158,55 @@ func (g *Gen) Scenario() {
 			}
 			return cat([]int64{12, int64(fi)}, encPairs(nil))
 		})
+	case 10, 11: // callback-free batch operations with exactly one observer: the world must still be locked in its callback
+		for oi, o := range g.S.Observers {
+			if o.registered {
+				oi := oi
+				q = append(q, func() []int64 {
+					if oi >= len(g.S.Observers) || !g.S.Observers[oi].registered {
+						return nil
+					}
+					return []int64{27, int64(oi)}
+				})
+			}
+		}
+		only := func(evt int, ops ...lazyOp) {
+			oi := -1
+			q = append(q, func() []int64 {
+				oi = len(g.S.Observers)
+				return cat([]int64{25, int64(evt)}, encList(nil), encList(nil), encList(nil), []int64{0, 0})
+			}, func() []int64 {
+				if oi < 0 || oi >= len(g.S.Observers) {
+					return nil
+				}
+				return []int64{26, int64(oi)}
+			})
+			q = append(q, ops...)
+			q = append(q, func() []int64 {
+				if oi < 0 || oi >= len(g.S.Observers) || !g.S.Observers[oi].registered {
+					return nil
+				}
+				return []int64{27, int64(oi)}
+			})
+		}
+		newBatch := func(fl int64) lazyOp {
+			return func() []int64 {
+				if !g.valid(t1) {
+					return nil
+				}
+				return cat([]int64{30, int64(n1)}, encList([]int{r1}), encPairs([][2]int64{{int64(r1), int64(t1.idx)}}), encPairs(nil), []int64{fl})
+			}
+		}
+		q = append(q, g.mkNew(t1, nil, nil))
+		only(254, newBatch(3), newBatch(1))
+		q = append(q, g.mkFilter(&fi, []int{r1}, nil))
+		only([]int{255, 250}[g.R.Intn(2)], func() []int64 {
+			if fi < 0 || fi >= len(g.S.Filters) {
+				return nil
+			}
+			return cat([]int64{12, int64(fi)}, encPairs(nil), []int64{1})
+		})
+		only(249, func() []int64 { return []int64{3, int64(n2), 1} }, newBatch(3))
 	case 8, 9: // a wildcard observer in front of filtered ones; unregister a filtered one, then the wildcard
 		evt := []int{249, 251, 252, 253, 250}[g.R.Intn(5)]
 		b := g.firstComp(func(code int) bool { return code == CodeB })
